@@ -153,8 +153,12 @@ def run_shard(rec, tier, seed, shard, nshards):
     def factory():
         return gen.make_indentation(data, with_tip=False)
 
+    import zlib
     for i, sel in enumerate(sels):
-        if i % nshards != shard:
+        # all orderings of one subset are judged in the SAME process (a
+        # result that depends on earlier calls with the same steps would
+        # otherwise go unnoticed)
+        if zlib.crc32("|".join(sorted(sel)).encode()) % nshards != shard:
             continue
         check_selection(rec, sel, req, opt, factory)
         if len(sel) == 5:
